@@ -219,6 +219,38 @@ theorem handler_missing_query (env : Env) (rpc : Rpc) (o : Bool) : handler env r
     handler env rpc .unset o = .ok .invalidArgument ∧ handler env rpc (.not_ .absent) o = .ok .invalidArgument := by
   refine ⟨rfl, rfl, rfl⟩
 
+/-! ## option / result / listing values: the conversions that are not plain copies -/
+
+/-- the three defined flush reasons and "none" survive `FlushReason.ToProto` / `FlushReasonFromProto` -/
+theorem flushReason_roundtrip : ∀ fr ∈ [0, 1, 2, 4], flushFromProto (flushToProto fr) = fr := by decide
+
+/-- … and no other `uint8` value does (they all come back as 0): the enum is exactly those four -/
+theorem flushReason_only_defined (fr : Nat) (h : flushFromProto (flushToProto fr) = fr) : fr ∈ [0, 1, 2, 4] := by
+  by_cases h1 : fr = 1
+  · simp [h1]
+  by_cases h2 : fr = 2
+  · simp [h2]
+  by_cases h4 : fr = 4
+  · simp [h4]
+  have h0 : flushToProto fr = 0 := by simp [flushToProto, h1, h2, h4]
+  rw [h0] at h
+  have : fr = 0 := by simpa [flushFromProto] using h.symm
+  simp [this]
+
+/-- both list modes survive `ListOptions.ToProto` / `ListOptionsFromProto` -/
+theorem listField_roundtrip : ∀ f ∈ [(0 : Int), 2], listFieldFromProto (listFieldToProto f) = f := by decide
+
+/-- `Repository.Rank` and `IndexMetadata.LanguageMap` values (`uint16`) survive the detour through `uint32` -/
+theorem u16_roundtrip (x : Nat) (h : x < 65536) : u16ViaU32 x = x := by
+  unfold u16ViaU32; omega
+
+/-- every `time.Duration` (any `int64`, negative ones included) survives `durationpb.New` / `AsDuration` -/
+theorem duration_roundtrip (d : Int) : durationJoin (durationSplit d) = d := by
+  unfold durationJoin durationSplit
+  simp only
+  have := Int.mul_tdiv_add_tmod d 1000000000
+  omega
+
 /-! ## translator tables: the code has the shape the model assumes (regenerated from the working tree by every run) -/
 
 open ZoektModel.Gen.C24 in
